@@ -1,7 +1,7 @@
 from common import COMMON_TB
 
 CONFIG = {
-    "lean_modules": ["SA.Props.C04", "SA.Props.C04Spell"],
+    "lean_modules": ["SA.Props.C04", "SA.Props.C04Spell", "SA.Props.C04Front"],
     "level_text": "Decision logic proved in Lean on the handshake model of C06: C04_connect_sound (for every peer script, "
                   "carrier flag, TLS behaviour: a Connect with mustSecure only returns a connection that reports secure; secure only "
                   "from the carrier flag or an established StartTLS handshake), C04_secure_args_honest + C04_mustSecure_sound (the "
@@ -24,7 +24,17 @@ CONFIG = {
                   "C04_spelling_grid_never_plaintext (their composition over every spelling x server plain/TLS x certificate x "
                   "require-security x client certificate configuration), tied to the code by the second seckinds op form: every "
                   "spelling the REAL parser accepts, parsed by it, against plain and TLS servers of its carrier family through "
-                  "a recording relay that also reports the first byte on the wire.",
+                  "a recording relay that also reports the first byte on the wire. Whatever the peer answers to the dial "
+                  "(SA.Props.C04Front): C04_flag_computed_for_the_carrier_in_use (regenerated from every Connect: a kind whose "
+                  "`secure` argument is not the literal false opens its carrier at most once on every path to the handshake - no "
+                  "redirect followed, no fall-back dial, no retry loop - and does not assign the flag after the dial), "
+                  "C04_front_grid_never_plaintext (every spelling x front-end answer {relay, 3xx to a plain / TLS location, loop, "
+                  "200/404, TLS refused} x server x certificate x require-security x client certificates: the five clauses hold on "
+                  "the carrier that carries the session; proved from that fact) and the kernel-checked counter-examples "
+                  "C04_front_redial_witness / C04_front_fallback_witness (a Connect that re-dials with the flag of the configured "
+                  "URL: wss:// redirected to ws:// is reported secure with the payload in clear), tied to the code by the third "
+                  "seckinds op form: a scripted front-end (TLS-terminating when addressed in TLS) where the configured URL points, "
+                  "recording relays in front of real plain and TLS servers, the monitors judged on the last carrier opened.",
     "level_note": "Partial on TLS: crypto/tls and x509 are a parameter (`tls left`), i.e. 'payload never appears in clear on a "
                   "secure session' is reduced to the crypto/tls contract; the harness checks it observationally (a marker "
                   "written by the application must not occur in the recorded carrier bytes). Scripted (misbehaving) peers reach "
@@ -65,6 +75,12 @@ CONFIG = {
             "server, unixgram, TLS over unixpacket) once each in the thorough tier only. Monitor: the three clauses above with "
             "'TLS-protected' read off the wire (tech tls or first byte 0x16), plus: secure+underlying => first byte is a TLS "
             "record; spelling says TLS => first byte is a TLS record. "
+            "seckinds, third form `<spelling> <front> <stls> <scert> <must> <insecure> <ca>`: every websocket spelling (http https ws "
+            "wss) x front-end answer {loop, 200, 404, TLS refused (tlsdrop), 301/302/303/307/308 each to two of ws/wss/http/https "
+            "(thorough: all 20)} x server certificate x require-security x client {verifying with CA, insecure} (thorough: all "
+            "four), tcp / tcp+tls x {tlsdrop, 200}, every spelling relayed untouched x {plain, plain+certificate, TLS}; rejected "
+            "forms (ws+tls, http+tls) and a kind the front-end does not speak once. Result adds hops = physical connections the "
+            "client opened; first = first byte of the LAST one. Monitor: the five clauses on that last carrier. "
             "non-trivial = session established; distinct = distinct op line",
     "trusted_base": COMMON_TB + [
         "model SA.Model.Security + SA.Model.Handshake hand-written; tied per op (outcome class, security tech, secure flag, "
@@ -77,6 +93,9 @@ CONFIG = {
         "a unix socket its file name)",
         "rig environment table of the spelling sweep (envRefused): udp6 has no address on 127.0.0.1, KCP towards a unixgram name "
         "and TLS over SOCK_SEQPACKET never complete - observed, modelled as refused",
+        "shape extraction of the carrier-opening calls of each Connect (go/ast, by function name containing `Dial`, path-sensitive "
+        "count, loops and closures twice): a dial through a differently named helper is not counted - the front-end sweep is the "
+        "dynamic counterpart",
         "C18's model of the +tls chains (SA.Model.Schemes.runOf .upstream over SA.Gen.C18) is reused for what each spelling dials"],
     "assumptions": ["TLS handshake success is reported consistently by both ends (honest-pair theorems)",
                     "a TLS handshake fails when anything but a TLS hello is next on the carrier"],
